@@ -114,7 +114,11 @@ SLOT_SHAPES = {"paren": lambda x, n: "(" * n + x + ")" * n,
                "callstr": lambda x, n: "f(" * n + "'50%', " + x + ")" * n,
                "callsigned": lambda x, n: "f(" * n + x + ", -1.0)" * n,
                "callkw": lambda x, n: "f(k=" * n + x + ")" * n,
-               "section": lambda x, n: "a(" * n + x + ":)" * n}
+               "section": lambda x, n: "a(" * n + x + ":)" * n,
+               # data-refs with '%' on every level: the last part without / with a subscript list, the reference as its first part
+               "pctnest": lambda x, n: "s(" * n + x + ")%c" * n,
+               "pctsub": lambda x, n: "s(" * n + x + ")%c(1)" * n,
+               "pcthead": lambda x, n: "a%b(" * n + x + ")" * n}
 SLOT_SIZES = [1, 2, 4, 8, 16]
 SLOT_CAP = 600000     # a slot family needs a few hundred calls at n = 1; 4 * c(1) * 16^2 stays far below this
 
